@@ -117,7 +117,7 @@ func TestMain(m *testing.M) {
 	vh.Main(m, vh.Meta{
 		ID:    "C12",
 		Level: "exploration",
-		Rule: "rapid-generated edit histories (3..45 actions) on generator.App (graph instance reached through the verif hook, every node package cmd/polyform imports registered, plus two harness nodes: an order-sensitive string Join with an array input and a formatter): create node of a drawn registered type (weighted towards parameters, Join, text artifact), connect type-compatible ports incl. array inputs (up to 14 entries), disconnect scalar and array inputs, UpdateParameter with a value for each parameter type (int, float64, bool, string incl. unicode/escapes, vector2/3, vector3 array, AABB, colour, file bytes, PNG image), set name/description, designate producers, set/delete nested metadata, delete nodes nothing depends on; at the end (and at drawn points) save -> load into a fresh App -> compare -> save again. Also every graph file shipped under examples/ (load -> save -> load -> save). " +
+		Rule: "rapid-generated edit histories (3..45 actions) on generator.App (graph instance reached through the verif hook, every node package cmd/polyform imports registered, plus two harness nodes: an order-sensitive string Join with an array input and a formatter): create node of a drawn registered type (weighted towards parameters, Join, text artifact), connect type-compatible ports incl. array inputs (up to 14 entries; 1 history in 4 fills one array input of the Join with 11..14 or 99..130 string parameters in one burst, about 1 history in 150 with 1001/1024/1100 - four-digit indices - and is otherwise cut to 6 actions), disconnect scalar and array inputs, UpdateParameter with a value for each parameter type (int, float64, bool, string incl. unicode/escapes, vector2/3, vector3 array, AABB, colour, file bytes, PNG image), set name/description, designate producers, set/delete nested metadata, delete nodes nothing depends on; at the end (and at drawn points) save -> load into a fresh App -> compare -> save again. Also every graph file shipped under examples/ (load -> save -> load -> save). " +
 			"Oracle: node ids, types, ordered dependency lists (name, id, port), parameter data, producers, metadata equal between original and reloaded instance (graph.Instance.Schema()); artifacts of producers that render deterministically on the original equal on the reload; second save byte-identical to the first; two saves of one instance identical. " +
 			"Non-trivial = an array input with >= 11 connections, or >= 2 binary (file/image) parameters, or a disconnect in the history. Distinct by action-list JSON.",
 		Assumptions: []string{
@@ -172,11 +172,24 @@ func genCase(t *rapid.T) Case {
 		return op
 	}), min, 45).Draw(t, "ops")
 	// an optional burst that fills one array input beyond ten entries
+	n := 0
 	if rapid.IntRange(0, 3).Draw(t, "burst") == 0 {
-		n := rapid.IntRange(11, 14).Draw(t, "burstLen")
+		n = rapid.IntRange(11, 14).Draw(t, "burstLen")
 		if rapid.IntRange(0, 7).Draw(t, "hugeBurst") == 0 {
 			n = rapid.IntRange(99, 130).Draw(t, "hugeBurstLen") // three-digit indices
 		}
+	}
+	// rarer and bigger (about 1 history in 150; rapid's IntRange favours the ends of its range, a
+	// full-width draw modulo 101 compared with a non-minimal residue is met in 1 of 156, measured):
+	// four-digit indices on one array input; the rest of such a history is cut to at most 6 actions,
+	// every save/load/compare of a 1100-node graph costs tens of milliseconds
+	if rapid.Uint64().Draw(t, "burst1000")%101 == 77 {
+		n = rapid.SampledFrom([]int{1001, 1024, 1100}).Draw(t, "burst1000Len")
+		if len(ops) > 6 {
+			ops = ops[:6]
+		}
+	}
+	if n > 0 {
 		burst := []Op{{K: "create", A: joinTypeIndex(), B: 2, C: 99}}
 		for i := 0; i < n; i++ {
 			burst = append(burst, Op{K: "create", A: stringParamIndex(), B: 2, C: 99}, Op{K: "param", A: 0, B: 1, S: fmt.Sprintf("v%d", i)}, Op{K: "burstconnect"})
@@ -668,6 +681,9 @@ func runCase(c Case, o *vh.Obs) *vh.Failure {
 	}
 	if maxArr >= 101 {
 		o.Class("array-input>=101")
+	}
+	if maxArr >= 1001 {
+		o.Class("burst/1000+")
 	}
 	if files+images >= 2 {
 		o.Class(">=2-binary-parameters")
